@@ -139,6 +139,21 @@ def gen_input(rng, family, dim, periodic, nmax=40):
                 dirs.append((1.0 if i % 2 else -1.0, 0.0, 0.0))
         rng.shuffle(dirs)
         gens = [ctr] + [[ctr[c] + rad * (1.0 + 1e-6 * rank + (0.5 * rank / m if dim == 1 else 0.0)) * d[c] for c in range(3)] for rank, d in enumerate(dirs)]
+    elif family == "diagshift":
+        # periodic boxes with equal widths along (at least) two axes and two generators near opposite corners of that face of the box: their
+        # nearest images differ by a shift with two non-zero components of opposite sign, (0, +w, -w) and the like
+        ax = rng.choice([(1, 2), (0, 1), (0, 2)] if dim == 3 else [(0, 1)])
+        inp["width"][ax[1]] = inp["width"][ax[0]]
+        if rng.chance(0.5):
+            inp["width"] = [inp["width"][ax[0]]] * 3
+        width = inp["width"]
+        g0, g1 = rnd_pt(), rnd_pt()
+        s0 = rng.choice([0, 1])
+        for a, hi in ((ax[0], s0), (ax[1], 1 - s0)):
+            g0[a] = anchor[a] + width[a] * ((0.7 + 0.25 * rng.unit()) if hi else (0.05 + 0.25 * rng.unit()))
+            g1[a] = anchor[a] + width[a] * ((0.05 + 0.25 * rng.unit()) if hi else (0.7 + 0.25 * rng.unit()))
+        gens = [g0, g1] + [rnd_pt() for _ in range(rng.range(0, 2))]
+        rng.shuffle(gens)
     elif family == "offlattice":
         # exact lattices (simple cubic / body centred) in boxes far from the origin, offsets of mixed sign: every decision is a tie whose
         # plane equation has large cancelling terms (n.p small, |n|.|p| large)
